@@ -170,6 +170,21 @@ def real_loss(ck, sub, tier, rng, replay=None):
             ch = gw.remote_exec(W_REAL_STREAM % {"sizes": sizes, "endless": endless})
             pid = ch.receive(20)
             idle = gw.remote_exec("channel.receive()")
+            if (len(sizes) + nrecv + kill_after) % 2 == 0:
+                # the initiator is in the middle of sending a large stream to the worker when it dies (on a via= gateway the
+                # forwarder's write to the dead process fails: still the END OF THE CONNECTION for this gateway)
+                ex["flooding"] = True
+                sink = gw.remote_exec("while 1: channel.receive()")
+
+                def flood(sink=sink):
+                    try:
+                        while 1:
+                            sink.send(b"x" * 200000)
+                    except Exception:  # noqa
+                        pass
+
+                threading.Thread(target=flood, daemon=True).start()
+                time.sleep(0.05)
             cbch = gw.remote_exec(W_REAL_CB % {"items": cb_items})
             cbgot = []
             cbch.setcallback(cbgot.append, endmarker=("END",))
